@@ -1002,9 +1002,39 @@ def attr_access_by_name(tree, stats):
     count = 0
 
     class G(ast.NodeTransformer):
+        def visit_JoinedStr(self, n):
+            # a string built from literal pieces only ("_" + "close" after a table was unrolled) is that literal
+            self.generic_visit(n)
+            if all(isinstance(v, ast.Constant) and isinstance(v.value, str) or isinstance(v, ast.FormattedValue) and v.conversion == -1 and v.format_spec is None
+                   and isinstance(v.value, ast.Constant) and isinstance(v.value.value, str) for v in n.values):
+                return loc(ast.Constant(value="".join(v.value if isinstance(v, ast.Constant) else v.value.value for v in n.values)), n)
+            return n
+
+        def visit_Subscript(self, n):
+            # {"a": x, "b": y}["a"] is x  (a literal table indexed by a literal key, plain values)
+            self.generic_visit(n)
+            if isinstance(n.ctx, ast.Load) and isinstance(n.value, ast.Dict) and isinstance(n.slice, ast.Constant) and all(isinstance(k, ast.Constant) for k in n.value.keys) \
+                    and all(_simple_arg(v) for v in n.value.values):
+                hit = [v for k, v in zip(n.value.keys, n.value.values) if k.value == n.slice.value]
+                if len(hit) == 1:
+                    return hit[0]
+            return n
+
         def visit_Call(self, c):
             nonlocal count
             self.generic_visit(c)
+            # f(**{"a": x, "b": y}) is f(a=x, b=y)
+            if any(k.arg is None and isinstance(k.value, ast.Dict) and all(isinstance(kk, ast.Constant) and isinstance(kk.value, str) and kk.value.isidentifier() for kk in k.value.keys)
+                   for k in c.keywords):
+                kws = []
+                for k in c.keywords:
+                    if k.arg is None and isinstance(k.value, ast.Dict) and all(isinstance(kk, ast.Constant) and isinstance(kk.value, str) and kk.value.isidentifier() for kk in k.value.keys):
+                        kws += [ast.keyword(arg=kk.value, value=vv) for kk, vv in zip(k.value.keys, k.value.values)]
+                    else:
+                        kws.append(k)
+                if len({k.arg for k in kws if k.arg}) == len([k for k in kws if k.arg]):
+                    c.keywords = kws
+                    count += 1
             if isinstance(c.func, ast.Name) and c.func.id == "getattr" and len(c.args) == 2 and not c.keywords and isinstance(c.args[1], ast.Constant) \
                     and isinstance(c.args[1].value, str) and c.args[1].value.isidentifier():
                 count += 1
@@ -2558,6 +2588,28 @@ def top_functions(tree, modname):
     yield from rec(tree.body, modname)
 
 
+def _pair_tables_as_dicts(tree, stats):
+    """A private table written as a tuple of (literal key, value) pairs that is only ever read through `dict(<table>)` is the dict display
+    (and each `dict(<table>)` the table itself)."""
+    tables = {}
+    for holder in [tree] + [c for c in ast.walk(tree) if isinstance(c, ast.ClassDef)]:
+        for st in holder.body:
+            if isinstance(st, ast.Assign) and len(st.targets) == 1 and isinstance(st.targets[0], ast.Name) and st.targets[0].id.startswith("_") \
+                    and isinstance(st.value, ast.Tuple) and st.value.elts and all(isinstance(e, ast.Tuple) and len(e.elts) == 2 and isinstance(e.elts[0], ast.Constant) for e in st.value.elts):
+                tables.setdefault(st.targets[0].id, []).append(st)
+    for name, defs in tables.items():
+        refs = [n for n in ast.walk(tree) if (isinstance(n, ast.Name) and n.id == name or isinstance(n, ast.Attribute) and n.attr == name) and isinstance(n.ctx, ast.Load)]
+        wraps = [c for c in ast.walk(tree) if isinstance(c, ast.Call) and isinstance(c.func, ast.Name) and c.func.id == "dict" and len(c.args) == 1 and not c.keywords
+                 and any(c.args[0] is r for r in refs)]
+        if not refs or len(wraps) != len(refs):
+            continue
+        for st in defs:
+            st.value = loc(ast.Dict(keys=[e.elts[0] for e in st.value.elts], values=[e.elts[1] for e in st.value.elts]), st.value)
+        for c in wraps:
+            _replace_node(tree, c, c.args[0])
+        stats["pair-table->dict"] = stats.get("pair-table->dict", 0) + 1
+
+
 def _match_as_if(tree, stats):
     """`match S:` whose cases are built from literal / singleton / bare class / capture / wildcard / or-patterns (plus guards) is the
     if / elif chain of `S == v`, `S is v`, `isinstance(S, C)` tests in the same order (a subject that is not a plain name or attribute
@@ -2915,6 +2967,61 @@ def _pair_loops(fn, stats):
                                 x.id = new_
 
 
+def _literal_table_locals(fn, stats):
+    """A local bound once to a dict display with literal keys and plain values, and only ever read as `D[<literal key>]`: each read is the value."""
+    for holder, fld, block in list(blocks_of(fn)):
+        for st in list(block):
+            if not (isinstance(st, ast.Assign) and len(st.targets) == 1 and isinstance(st.targets[0], ast.Name) and isinstance(st.value, ast.Dict) and st.value.keys
+                    and all(isinstance(k, ast.Constant) for k in st.value.keys) and all(_simple_arg(v) for v in st.value.values)):
+                continue
+            D = st.targets[0].id
+            uses = [n for n in ast.walk(fn) if isinstance(n, ast.Name) and n.id == D and n is not st.targets[0]]
+            subs = [n for n in ast.walk(fn) if isinstance(n, ast.Subscript) and isinstance(n.value, ast.Name) and n.value.id == D and isinstance(n.ctx, ast.Load)
+                    and isinstance(n.slice, ast.Constant) and any(k.value == n.slice.value for k in st.value.keys)]
+            if not uses or len(uses) != len(subs) or any(isinstance(u.ctx, ast.Store) for u in uses):
+                continue
+            # the values must not be rebound between the table and its reads (plain parameters / names bound once)
+            stores = {}
+            for n in ast.walk(fn):
+                if isinstance(n, ast.Name) and isinstance(n.ctx, (ast.Store, ast.Del)):
+                    stores[n.id] = stores.get(n.id, 0) + 1
+            if any(isinstance(v, ast.Name) and stores.get(v.id, 0) > 0 for v in st.value.values):
+                continue
+            table = {k.value: v for k, v in zip(st.value.keys, st.value.values)}
+            for sub in subs:
+                _replace_node(fn, sub, copy.deepcopy(table[sub.slice.value]))
+            block.remove(st)
+            if not block:
+                block.append(loc(ast.Pass(), st))
+            stats["literal-table-local-resolved"] = stats.get("literal-table-local-resolved", 0) + 1
+
+
+def _parameter_aliases(fn, stats):
+    """`a = p` where p is a parameter the function never rebinds and a is bound nowhere else: a is p."""
+    params = {x.arg for x in fn.args.posonlyargs + fn.args.args + fn.args.kwonlyargs}
+    stores = {}
+    for n in ast.walk(fn):
+        if isinstance(n, ast.Name) and isinstance(n.ctx, (ast.Store, ast.Del)):
+            stores[n.id] = stores.get(n.id, 0) + 1
+        elif isinstance(n, (ast.Global, ast.Nonlocal)):
+            for x in n.names:
+                stores[x] = stores.get(x, 0) + 2
+    for holder, fld, block in list(blocks_of(fn)):
+        for st in list(block):
+            if isinstance(st, ast.Assign) and len(st.targets) == 1 and isinstance(st.targets[0], ast.Name) and isinstance(st.value, ast.Name) \
+                    and st.value.id in params and stores.get(st.value.id, 0) == 0 and stores.get(st.targets[0].id) == 1 and st.targets[0].id not in params:
+                a, p_ = st.targets[0].id, st.value.id
+                if any(isinstance(g, FUNC + (ast.Lambda,)) and g is not fn and any(isinstance(y, ast.Name) and y.id == a for y in ast.walk(g)) for g in ast.walk(fn)):
+                    continue
+                for n in ast.walk(fn):
+                    if isinstance(n, ast.Name) and n.id == a and isinstance(n.ctx, ast.Load):
+                        n.id = p_
+                block.remove(st)
+                if not block:
+                    block.append(loc(ast.Pass(), st))
+                stats["parameter-alias-expanded"] = stats.get("parameter-alias-expanded", 0) + 1
+
+
 def _get_then_none_test(fn, tree, stats):
     """`X = D.get(K)` directly followed by `if X is not None: BODY` (X read nowhere else) is `if K in D: BODY` with `D[K]` for X -- when
     no store into that table anywhere in the module can put a None there (every `<..>.attr[..] = V` has V a display / constructor call)."""
@@ -3245,6 +3352,7 @@ def normalise(tree, modname, keyword_names=frozenset(), ref=None, stats=None):
     mark_real(tree)
     known = set(ref.get("inventory", {}).get(modname, []))
     _match_as_if(tree, stats)
+    _pair_tables_as_dicts(tree, stats)
     for f_ in ast.walk(tree):          # a bare `return` / `return None` that ends a function body (nested functions included)
         if isinstance(f_, FUNC):
             while len(f_.body) > 1 and isinstance(f_.body[-1], ast.Return) and (f_.body[-1].value is None or isinstance(f_.body[-1].value, ast.Constant) and f_.body[-1].value.value is None):
@@ -3280,6 +3388,8 @@ def normalise(tree, modname, keyword_names=frozenset(), ref=None, stats=None):
         _split_block_local_names(fn, stats)
         _single_use_temps(fn, stats)
         _unroll_literal_comprehensions(fn, stats)
+        _literal_table_locals(fn, stats)
+        _parameter_aliases(fn, stats)
         _star_displays(fn, stats)
         for holder, fld, block in reversed(list(blocks_of(fn))):     # idioms that only appear once temporaries are gone
             canon_block(block, fn, stats)
@@ -3368,6 +3478,111 @@ def fingerprint(fn):
             n.name = num.setdefault(n.name, f"v{len(num)}")
     txt = ast.dump(mod) + "|" + str(len(fn.decorator_list))
     return hashlib.sha1(txt.encode()).hexdigest()[:16]
+
+
+def ungroup_private_state(trees, ref=None, stats=None):
+    """Private module globals grouped into one private namespace object (`class _State: def __init__(self): self.a = ..` ; `_state = _State()` ;
+    uses `_state.a`) are the module globals `_a` again: the class and the instance disappear, `_state.a` reads `_a`.  Only when the object is
+    used in no other way and no attribute of it is ever rebound."""
+    ref = reference() if ref is None else ref
+    stats = stats if stats is not None else {}
+    for m, tree in trees.items():
+        known = set(ref.get("module_names", {}).get(m, []))
+        for c in [c for c in tree.body if isinstance(c, ast.ClassDef) and c.name.startswith("_") and c.name not in known and not c.bases and not c.decorator_list]:
+            body = _strip_doc(c.body)
+            init = [b for b in body if isinstance(b, ast.FunctionDef) and b.name == "__init__"]
+            rest = [b for b in body if b not in init and not (isinstance(b, ast.Assign) and len(b.targets) == 1 and isinstance(b.targets[0], ast.Name) and b.targets[0].id == "__slots__")]
+            if len(init) != 1 or rest or len(init[0].args.args) != 1 or init[0].args.vararg or init[0].args.kwarg or init[0].args.kwonlyargs:
+                continue
+            selfn = init[0].args.args[0].arg
+            ib = _strip_doc(init[0].body)
+            if not ib or not all(isinstance(b, ast.Assign) and len(b.targets) == 1 and isinstance(b.targets[0], ast.Attribute) and isinstance(b.targets[0].value, ast.Name)
+                                 and b.targets[0].value.id == selfn and not any(isinstance(x, ast.Name) and x.id == selfn for x in ast.walk(b.value)) for b in ib):
+                continue
+            fields = {b.targets[0].attr: b.value for b in ib}
+            insts = [st for st in tree.body if isinstance(st, ast.Assign) and len(st.targets) == 1 and isinstance(st.targets[0], ast.Name) and isinstance(st.value, ast.Call)
+                     and isinstance(st.value.func, ast.Name) and st.value.func.id == c.name and not st.value.args and not st.value.keywords]
+            cls_mentions = [n for t in trees.values() for n in ast.walk(t) if isinstance(n, ast.Name) and n.id == c.name]
+            if len(insts) != 1 or len(cls_mentions) != 1:
+                continue
+            X = insts[0].targets[0].id
+            names = [n for t in trees.values() for n in ast.walk(t) if isinstance(n, ast.Name) and n.id == X and n is not insts[0].targets[0]]
+            attrs = [n for n in ast.walk(tree) if isinstance(n, ast.Attribute) and isinstance(n.value, ast.Name) and n.value.id == X]
+            if len(names) != len(attrs) or any(a.attr not in fields or not isinstance(a.ctx, ast.Load) for a in attrs) \
+                    or any(isinstance(n, (ast.alias,)) and (n.asname or n.name) == X for t in trees.values() for n in ast.walk(t)):
+                continue
+            glob = {f: (f if f.startswith("_") else "_" + f) for f in fields}
+            taken = {n.id for n in ast.walk(tree) if isinstance(n, ast.Name)} | {a.arg for a in ast.walk(tree) if isinstance(a, ast.arg)}
+            if any(g in taken for g in glob.values()):
+                continue
+            at = tree.body.index(insts[0])
+            tree.body[at:at + 1] = [loc(ast.Assign(targets=[ast.Name(id=glob[f], ctx=ast.Store())], value=v), insts[0]) for f, v in fields.items()]
+            tree.body.remove(c)
+            for a in attrs:
+                _replace_node(tree, a, loc(ast.Name(id=glob[a.attr], ctx=ast.Load()), a))
+            stats.setdefault("private-state-object-ungrouped", []).append(f"{m}.{X}")
+
+
+def _private_attr_sequences(trees):
+    """{function qualname: [private attribute names it mentions, in source order]}  (attributes of any object; `_x` / `__x`, not dunders)"""
+    out = {}
+    for m, tree in trees.items():
+        for q, f in top_functions(tree, m):
+            seq = []
+            for n in _preorder(f):
+                if isinstance(n, ast.Attribute) and n.attr.startswith("_") and not (n.attr.startswith("__") and n.attr.endswith("__")):
+                    seq.append(n.attr)
+            out[q] = seq
+    return out
+
+
+def undo_private_attr_renames(trees, ref=None, stats=None):
+    """A private attribute / private method of the reference tree that is mentioned nowhere any more, while a new private name is mentioned in exactly
+    the positions where it stood (same function, same place in the sequence of private attributes that function mentions), was renamed: the new
+    name is replaced by the reference name everywhere (attributes, method definitions, __slots__ strings).  Positions are compared only in functions
+    whose sequences have the same length; the mapping must be unanimous, one-to-one, from names the reference does not know to names that vanished."""
+    ref = reference() if ref is None else ref
+    stats = stats if stats is not None else {}
+    want = ref.get("private_attrs")
+    if not want:
+        return
+    have = _private_attr_sequences(trees)
+    ref_names = {a for seq in want.values() for a in seq}
+    cur_names = {a for seq in have.values() for a in seq}
+    votes = {}
+    for q, seq in have.items():
+        w = want.get(q)
+        if w is None or len(w) != len(seq):
+            continue
+        for a, b in zip(seq, w):
+            if a != b:
+                votes.setdefault(a, {}).setdefault(b, 0)
+                votes[a][b] += 1
+    mapping = {}
+    for a, tos in votes.items():
+        if len(tos) != 1:
+            continue
+        b = next(iter(tos))
+        if a in ref_names or b in cur_names:
+            continue
+        mapping[a] = b
+    if len(set(mapping.values())) != len(mapping):
+        return
+    if not mapping:
+        return
+    for tree in trees.values():
+        for n in ast.walk(tree):
+            if isinstance(n, ast.Attribute) and n.attr in mapping:
+                n.attr = mapping[n.attr]
+            elif isinstance(n, FUNC) and n.name in mapping:
+                n.name = mapping[n.name]
+            elif isinstance(n, ast.Assign) and len(n.targets) == 1 and isinstance(n.targets[0], ast.Name) and n.targets[0].id == "__slots__" and isinstance(n.value, (ast.Tuple, ast.List)):
+                for e in n.value.elts:
+                    if isinstance(e, ast.Constant) and e.value in mapping:
+                        e.value = mapping[e.value]
+            elif isinstance(n, ast.keyword) and n.arg in mapping:
+                pass
+    stats.setdefault("private-attributes-renamed-back", []).extend(f"{a}->{b}" for a, b in sorted(mapping.items()))
 
 
 def undo_function_renames(trees, ref=None, stats=None):
@@ -4112,6 +4327,7 @@ def build_reference(root):
     normalise_private_calls(trees, ref={}, stats={})
     ref["signatures"] = private_signatures(trees)
     ref["nested"] = {q: sorted({n.name for n in ast.walk(f) if isinstance(n, FUNC) and n is not f}) for m, tree in trees.items() for q, f in top_functions(tree, m)}
+    ref["private_attrs"] = _private_attr_sequences(trees)
     roles = {}
     for m, tree in trees.items():
         normalise(tree, m, ref=ref)
